@@ -31,6 +31,8 @@ def classify(fs):
     obs = fs[-1]
     if k == "c14v":
         return "visits:" + (obs.rsplit("|", 1)[-1] if "|" in obs else obs)
+    if k == "c14n":
+        return "nested:" + "".join(p[0] for p in fs[5].split(">")) + ":" + obs.rsplit("|", 1)[-1]
     if k == "c14p":
         return "path:" + obs.split(";")[0].split(" ")[0] + ":" + (obs.split(";")[0].split(" ")[1] if obs.startswith("err") else "")
     return "roundtrip"
